@@ -279,6 +279,11 @@ Proof.
   assert (H2 : Nat.ltb a n3 = false) by (apply Nat.ltb_ge; lia).
   rewrite H1, H2. reflexivity.
 Qed.
+(* LIMIT of the invisibility: it is about the SAME particle number.  If N grows back after the serialisation (remove a particle,
+   serialise, add a particle) the compression does flip the next step's decision: unobserved run keeps the old arrays, observed one zeroes them *)
+Lemma ias15_compress_visible_when_N_grows_back : exists a n n', n < n' /\ 3 * n' <= a /\
+  ias15_step_reallocates a n' = false /\ ias15_step_reallocates (ias15_compress a n) n' = true.
+Proof. exists 12, 3, 4. vm_compute. repeat split; repeat constructor. Qed.
 (* ... whereas compressing to the number of REAL particles (the N / N_real mix-up) makes the next step re-allocate *)
 Lemma wrong_compress_visible : exists a n nvar,
   let a' := if Nat.ltb (3 * (n - nvar)) a then 3 * (n - nvar) else a in
